@@ -48,6 +48,10 @@ CLAIMED = {
          "Every Copy() receiver type x zero / one-hot per field per menu value / all-populated, nested to depth 2 (quick) or 3 (thorough): no panic, canonical deep equality incl. unexported fields, no shared mutable container, mutation probes both ways; a field the generator cannot populate is reported.",
          "Field menus are generated by kind; interface-typed fields use a registry (Constraint, Default, AddrStep).",
          "DESIGN.md §6 C17"),
+ "C07": ("exploration", "bounded-exhaustive enumeration of cursors and typed prefixes in every body, compared with a reference model of the effective schema (E2 model compare)",
+         "For every structure template and seed config: every prefix of every declarable name typed on a new line in every known body, every offset inside written attribute names / block types / quoted labels, prefill off and on; the candidate list must equal (labels, kinds, order) the reference model's declarable set; every candidate is applied, re-parsed and re-validated.",
+         "Exactness only on files that parse without errors; AnyAttribute placeholder and dynamic-needs-block-types encode the library's choice where the statement is silent.",
+         "DESIGN.md §6 C07"),
  "C15": ("exploration", "bounded-exhaustive enumeration of every combination of injected violations, compared with a reference validator (E2 model compare)",
          "A reference validator written from the statement over the syntax tree gives the expected multiset of (severity, kind, item, admissible subject extent); compared with ValidateFile on every combination of injected violations at two nesting levels and on every file of the structure-template sweep (incl. broken files); Validate == union of ValidateFile.",
          "The hclsyntax tree is trusted as the account of what is written; the dynamic-block construct's shape is taken from its documentation.",
